@@ -168,10 +168,10 @@ class Problem:
             self.obligations.append((f"{title}/{tag}#{i}", tag, (), term))
 
     # ---- solving -------------------------------------------------------------------------------
-    def solver(self, timeout_s):
+    def solver(self, timeout_s, seed=7):
         s = z3.Solver()
         s.set("timeout", int(timeout_s * 1000))
-        s.set("random_seed", 7)
+        s.set("random_seed", seed)
         for a in self.sym.assumes:
             s.add(a)
         for p in self.pre_terms:
@@ -181,8 +181,12 @@ class Problem:
     def cover(self):
         if self.pre_false:
             return False
-        s = self.solver(self.timeout * budget_scale())
-        r = s.check()
+        to = self.timeout * budget_scale()
+        for budget, seed in ([(to, 7)] if to <= 20 else [(max(5.0, 0.1 * to), 7), (max(10.0, 0.3 * to), 101), (to, 2024)]):
+            s = self.solver(budget, seed)
+            r = s.check()
+            if r != z3.unknown:
+                break
         return None if r == z3.unknown else (r == z3.sat)
 
     def check_one(self, i, timeout_s=None):
@@ -202,11 +206,20 @@ class Problem:
         if self.pre_false:
             return {"name": nm, "verdict": UNSAT, "backend": "normaliser", "time": 0.0, "note": "precondition is False"}
         to = (timeout_s or self.timeout) * budget_scale()
-        s = self.solver(to)
-        s.add(z3.Not(term))
-        r = s.check()
+        # z3's running time on one and the same obligation varies by orders of magnitude with the random seed and with the numbering of the
+        # terms (measured: 0.9 s in one process, > 300 s in another).  Restarts with fresh seeds and growing budgets (10%, 30%, 100% of the
+        # budget) make the verdict robust against that: an answer of any attempt is an answer, only the last timeout is a timeout.
+        attempts = [(to, 7)] if to <= 20 else [(max(5.0, 0.1 * to), 7), (max(10.0, 0.3 * to), 101), (to, 2024)]
+        for k, (budget, seed) in enumerate(attempts):
+            s = self.solver(budget, seed)
+            s.add(z3.Not(term))
+            r = s.check()
+            if r != z3.unknown:
+                break
         res = {"name": nm, "verdict": _verdict(r), "backend": "z3-" + z3.get_version_string(),
                "time": round(time.time() - t0, 3)}
+        if k:
+            res["restarts"] = k
         if r == z3.sat:
             res["model"] = self.decode(s.model())
             self._models = getattr(self, "_models", {})
